@@ -165,6 +165,13 @@ Fixpoint sub_c (k : nat) : ru k -> ru k -> ru k * bool :=
 (* laddmul(r, ah, al, b, c, d) with d : ruint<K>:   (ah,al) = b*c + d, r = (overflow flag as the code computes it) *)
 (* laddmul(r, ah, al, b, c, d) with d : ruint<K+1>: (ah,al) = b*c + d, r = carry out of 2^(2^(K+1)) *)
 (* lmul_naive(ah, al, b, c) *)
+(* if (r) add_1(r, a);   if (r) add_1(r, a.High);   if (r) add(rt, bc.High, x) *)
+Definition add_1_if (k : nat) (r : bool) (a : ru k) : ru k * bool := if r then add_1 k a else (a, r).
+Definition add_1_high_if (k : nat) (r : bool) (a : ru (S k)) : ru (S k) * bool :=
+  if r then (let '(h, r') := add_1 k (snd a) in ((fst a, h), r')) else (a, r).
+Definition add_high_if (k : nat) (r : bool) (a : ru (S k)) (x : ru k) : ru (S k) * bool :=
+  if r then (let '(h, r') := add_c k (snd a) x in ((fst a, h), r')) else (a, false).
+
 Section MulRec.
   Variable k' : nat.
   Variable lmul_rec : ru k' -> ru k' -> ru k' * ru k'.                        (* (al, ah) *)
@@ -179,8 +186,8 @@ Section MulRec.
     let '(ah, _) := laddmul_rec (snd b) (snd c) (snd bcmid) in
     let al_lo := fst blcl in
     let '(al_hi, rlow) := add_c k' (snd blcl) (fst bcmid) in
-    let ah := if rlow then fst (add_1 (S k') ah) else ah in
-    let ah := if rmid then (fst ah, fst (add_1 k' (snd ah))) else ah in
+    let ah := fst (add_1_if (S k') rlow ah) in
+    let ah := fst (add_1_high_if k' rmid ah) in
     ((al_lo, al_hi), ah).
 
   (* generic body of laddmul(r, ah, al, b, c, d : ruint<K>) *)
@@ -191,9 +198,9 @@ Section MulRec.
     let '(ah, rhigh) := laddmul_rec (snd b) (snd c) (snd bcmid) in
     let al_lo := fst blcld in
     let '(al_hi, rlow2) := add_c k' (snd blcld) (fst bcmid) in
-    let '(ah, rlow) := if rlow then add_1 (S k') ah else (ah, rlow) in
-    let '(ah, rlow2) := if rlow2 then add_1 (S k') ah else (ah, rlow2) in
-    let '(ah, rmid) := if rmid then (let '(h, r) := add_1 k' (snd ah) in ((fst ah, h), r)) else (ah, rmid) in
+    let '(ah, rlow) := add_1_if (S k') rlow ah in
+    let '(ah, rlow2) := add_1_if (S k') rlow2 ah in
+    let '(ah, rmid) := add_1_high_if k' rmid ah in
     (((al_lo, al_hi), ah), rlow || rlow2 || rmid || rhigh).
 
   (* generic body of laddmul(r, ah, al, b, c, d : ruint<K+1>) *)
@@ -207,10 +214,10 @@ Section MulRec.
     let '(al_hi, rlow2) := add_c k' (snd blcldl) (fst bcmid) in
     let '(ah_lo, rmid2) := add_c k' (fst ah) (snd bcmid) in
     let ah := (ah_lo, snd ah) in
-    let '(ah, rlow) := if rlow then add_1 (S k') ah else (ah, rlow) in
-    let '(ah, rlow2) := if rlow2 then add_1 (S k') ah else (ah, rlow2) in
-    let '(ah, rmid) := if rmid then (let '(h, r) := add_1 k' (snd ah) in ((fst ah, h), r)) else (ah, rmid) in
-    let '(ah, rmid2) := if rmid2 then (let '(h, r) := add_1 k' (snd ah) in ((fst ah, h), r)) else (ah, rmid2) in
+    let '(ah, rlow) := add_1_if (S k') rlow ah in
+    let '(ah, rlow2) := add_1_if (S k') rlow2 ah in
+    let '(ah, rmid) := add_1_high_if k' rmid ah in
+    let '(ah, rmid2) := add_1_high_if k' rmid2 ah in
     (((al_lo, al_hi), ah), rlow || rlow2 || rmid || rmid2 || rhigh).
 End MulRec.
 
@@ -222,15 +229,15 @@ Definition lmul_kara_step (k' : nat) (lmul_rec : ru k' -> ru k' -> ru k' * ru k'
   let ah := lmul_rec (snd b) (snd c) in
   let al := lmul_rec (fst b) (fst c) in
   let bc := lmul_rec bb cc in
-  let '(bc, rt1) := if rb then (let '(h, r) := add_c k' (snd bc) cc in ((fst bc, h), r)) else (bc, false) in
-  let '(bc, rt2) := if rc then (let '(h, r) := add_c k' (snd bc) bb in ((fst bc, h), r)) else (bc, false) in
+  let '(bc, rt1) := add_high_if k' rb bc cc in
+  let '(bc, rt2) := add_high_if k' rc bc bb in
   let '(bc, rt3) := sub_c (S k') bc ah in
   let '(bc, rt4) := sub_c (S k') bc al in
   (* bool r = (rb&rc)+rt1+rt2-rt3-rt4  (int arithmetic, then converted to bool: non-zero) *)
   let r := negb ((b2z (rb && rc) + b2z rt1 + b2z rt2 - b2z rt3 - b2z rt4) =? 0) in
   let '(al_hi, rt5) := add_c k' (snd al) (fst bc) in
   let al := (fst al, al_hi) in
-  let ah := if rt5 then fst (add_1 (S k') ah) else ah in
+  let ah := fst (add_1_if (S k') rt5 ah) in
   let '(ah_lo, rt6) := add_c k' (fst ah) (snd bc) in
   let ah := (ah_lo, snd ah) in
   let ah := if rt6 || r then (fst ah, fst (add_w k' (snd ah) (b2z rt6 + b2z r))) else ah in
